@@ -21,7 +21,7 @@ import vlib
 MANIFEST = {
     "property": "C19",
     "theorems": ["C19_lock_exclusive", "C19_semaphore_bound", "C19_flow_bound", "C19_rwlock_writer_alone",
-                 "C19_rwlock_writer_admitted_only_when_free", "C19_rwlock_writer_excludes_all", "C19_rwlock_readers_share",
+                 "C19_rwlock_writer_accepted_only_when_free", "C19_rwlock_writer_excludes_all", "C19_rwlock_readers_share",
                  "C19_rwlock_unlimited_readers_branch", "C19_rlock_only_holder_reenters", "C19_rlock_balanced_unlocks",
                  "C19_prioritylock_exclusive", "C19_prioritylock_queue_head_is_max",
                  "C19_prioritylock_handover_newcomer_window",
